@@ -5,6 +5,7 @@ import copy
 import inspect
 import logging
 from dataclasses import dataclass, is_dataclass, make_dataclass
+from keyword import iskeyword
 from typing import (
     Any,
     Callable,
@@ -919,9 +920,13 @@ def remap_by_types(
                 (ast.literal_eval(f), self.lookup_type(v))  # type: ignore
                 for f, v in zip(t_node.keys, t_node.values)
             ]
-            dict_dataclass = make_dataclass("dict_dataclass", fields)
-
-            self._found_types[t_node] = dict_dataclass
+            # Keys that cannot be field names (spaces, keywords, duplicates) leave the type unknown.
+            names = [n for n, _ in fields]
+            if all(isinstance(n, str) and n.isidentifier() and not iskeyword(n) for n in names) and len(
+                set(names)
+            ) == len(names):
+                dict_dataclass = make_dataclass("dict_dataclass", fields)
+                self._found_types[t_node] = dict_dataclass
             return t_node
 
         def visit_Constant(self, node: ast.Constant) -> Any:
